@@ -44,6 +44,7 @@ type Prog struct {
 	Ifaces     map[string]*Block            // "pkgpath.Type.Method" or "pkgpath.FuncType." -> contract
 	Axioms     map[string]bool
 	AbstractTypes map[string]map[string]bool // using package path -> "pkgname.Type"
+	SynDirs    []*SynDirective
 	GInit     map[*types.Var]*GlobalInit
 	InitFuncs map[string][]*FuncInfo // pkg path -> init functions in file order
 	Written   map[*types.Var][]token.Position
@@ -111,6 +112,7 @@ func LoadProg(root string) (*Prog, error) {
 		}
 		var imports []string
 		data, _ := os.ReadFile(cfiles[dir])
+		p.SynDirs = append(p.SynDirs, parseSynDirectives(cfiles[dir], pkgPath, strings.Split(string(data), "\n"))...)
 		for _, l := range strings.Split(string(data), "\n") {
 			t := strings.TrimSpace(l)
 			if strings.HasPrefix(t, "//@ import ") {
